@@ -3,7 +3,8 @@
 case = (managers, contexts, pipelines, history)
   managers  : [None | timeout:int]                 None = CacheManager, int = TimedCacheManager(timeout)
   contexts  : [(manager_index, pool:bool)]         pool = Context(pool=SubmitAllPool()) -> _runJob_distributed
-  pipelines : [(ctx, partitions, [(tag, fn)])]     tag 0 map, 1 filter, 2 flatMap, 3 persist (fn 0) / cache (fn 1)
+  pipelines : [(ctx, partitions, [(tag, fn)])]     tag 0 map, 1 filter, 2 flatMap, 3 persist (fn 0) / cache (fn 1),
+                                                   4 mapPartitions (fn<3) / mapPartitionsWithIndex (fn>=3) with generator fn%3
   history   : [(0, k, j, kind, n)]  action on node j of pipeline k: kind 0 collect, 1 count, 2 take(n), 3 first
               [(1, k, j)] node.unpersist()   [(2, dt)] the clock advances   [(3, mi)] manager.gc()
 
@@ -24,7 +25,8 @@ ID = 'C05'
 KERNELS = []
 SHARD = 150
 RULE = ('worlds: 1-2 contexts with own or shared CacheManager/TimedCacheManager, local or pool jobs; 1-3 linear '
-        'pipelines of map/filter/flatMap stages from a 6+6+6 function library over 1-3 explicit partitions with '
+        'pipelines of map/filter/flatMap/mapPartitions[WithIndex] stages from a 6+6+6+3 function library (the partition '
+        'functions consume their iterator in two steps) over 1-3 explicit partitions with '
         'persist()/cache() at a random subset of positions; histories of 1-7 steps: collect/count/take(n)/first on '
         'ANY node, unpersist on any node, clock advances, explicit gc(); thorough adds the exhaustive scope '
         '(all persist subsets of a 2-stage pipeline on 2 partitions x all histories of length <= 3 over a 9-letter '
@@ -32,7 +34,9 @@ RULE = ('worlds: 1-2 contexts with own or shared CacheManager/TimedCacheManager,
         'distinct by canonical JSON')
 ASSUMPTIONS = [
     'sources are built with Context._parallelize_partitions (explicit partitions); slicing is C01/C07',
-    'user functions are pure, total and element-wise (map/filter/flatMap); mapPartitions-style stages are not modelled',
+    'user functions are pure and total: element-wise (map/filter/flatMap) or generator functions over the partition '
+    'iterator that consume their whole input when first pulled (mapPartitions/mapPartitionsWithIndex); partition '
+    'functions that run eagerly at compute() time or stop consuming early are not modelled',
     'the clock is constant during one action and never goes backwards (virtual clock, advances are >= 0)',
     'pool = an in-process pool whose map() takes all task inputs first and runs the tasks in order '
     '(as multiprocessing.Pool.map / ThreadPoolExecutor.map submit everything first); no pickling',
@@ -48,7 +52,35 @@ LIB_FILTER = [lambda x: x % 2 == 0, lambda x: x > 0, lambda x: x % 3 != 0, lambd
               lambda x: x < 2]
 LIB_FLAT = [lambda x: [x, x], lambda x: [], lambda x: [x], lambda x: list(range(x % 3)),
             lambda x: [x, x + 1, x + 2], lambda x: [] if x % 2 == 0 else [x]]
-MAP, FILTER, FLAT, PERSIST = 0, 1, 2, 3
+MAP, FILTER, FLAT, PERSIST, PART = 0, 1, 2, 3, 4
+
+
+# generator functions for mapPartitions / mapPartitionsWithIndex: each consumes the partition ITERATOR in two
+# steps, as the API allows (a header and then "the rest"; next() and then the rest; pairing with zip(it, it))
+def _pf_header_body(it):
+    header = list(itertools.islice(it, 1))
+    body = list(it)
+    for x in header:
+        yield x * 100 + sum(body)
+
+
+def _pf_next_rest(it):
+    try:
+        a = next(it)
+    except StopIteration:
+        return
+    rest = list(it)
+    yield a
+    yield len(rest)
+
+
+def _pf_pairs(it):
+    pairs = list(zip(it, it))
+    for a, b in pairs:
+        yield a + b
+
+
+LIB_PART = [_pf_header_body, _pf_next_rest, _pf_pairs]
 
 
 class Clock:
@@ -120,6 +152,12 @@ class Run:
                     node = node.filter(self._rec(LIB_FILTER[fn], holder))
                 elif tag == FLAT:
                     node = node.flatMap(self._rec(LIB_FLAT[fn], holder))
+                elif tag == PART:
+                    pf = self._rec_part(LIB_PART[fn % 3], holder)
+                    if fn >= 3:
+                        node = node.mapPartitionsWithIndex(lambda index, it, pf=pf: pf(it))
+                    else:
+                        node = node.mapPartitions(pf)
                 else:
                     node = node.cache() if fn else node.persist()
                 holder['rid'] = node.id()
@@ -130,6 +168,13 @@ class Run:
         def g(x):
             self.log.append((holder['rid'] - self.base, CUR['part'], x))
             return f(x)
+        return g
+
+    def _rec_part(self, pf, holder):
+        def g(it):
+            # a generator: this line runs when the first element is asked for
+            self.log.append((holder['rid'] - self.base, CUR['part'], None))
+            yield from pf(it)
         return g
 
     def _wrap(self, m, mi):
@@ -240,6 +285,8 @@ def _plain(stages, xs):
             xs = [x for x in xs if LIB_FILTER[fn](x)]
         elif tag == FLAT:
             xs = [y for x in xs for y in LIB_FLAT[fn](x)]
+        elif tag == PART:
+            xs = list(LIB_PART[fn % 3](iter(xs)))
     return xs
 
 
@@ -379,7 +426,7 @@ def kind(case):
 
 
 def _rand_stage(rng):
-    tag = rng.choice([MAP, MAP, FILTER, FLAT])
+    tag = rng.choice([MAP, MAP, MAP, FILTER, FILTER, FLAT, FLAT, PART])
     return (tag, rng.randrange(6))
 
 
@@ -395,6 +442,10 @@ def _rand_pipeline(rng, nctx, force_persist=True):
     marks = [rng.random() < 0.4 for _ in range(npos)]
     if force_persist and not any(marks):
         marks[rng.randrange(npos)] = True
+    if stages and stages[0][0] == PART and not marks[0]:
+        # a partition function directly on a parallelized source is handed the partition LIST, not an iterator
+        # (RDD.compute returns split.x()): outside the model, reported by extra_checks as a finding
+        stages[0] = (MAP, stages[0][1])
     for q in range(npos):
         if q > 0:
             out.append(stages[q - 1])
@@ -458,10 +509,10 @@ def _exhaustive(rng, tier):
     length <= 3 over: collect/first/take(1)/take(2) on the last node, collect on node 1, unpersist of
     each persisted node, advance(2), gc."""
     cases = []
-    stage_sets = [[(MAP, 0), (FILTER, 0)], [(FLAT, 0), (MAP, 1)]]
+    stage_sets = [[(MAP, 0), (FILTER, 0)], [(MAP, 0), (PART, 0)], [(FLAT, 0), (MAP, 1)], [(FLAT, 0), (PART, 5)]]
     worlds = [([None], [(0, False)]), ([2], [(0, False)])]
     if tier == 'quick':
-        stage_sets = stage_sets[:1]
+        stage_sets = stage_sets[:2]
     for st in stage_sets:
         for managers, contexts in worlds:
             for marks in itertools.product([False, True], repeat=3):
@@ -502,6 +553,11 @@ CORPUS = [
     # unpersist of an upstream persisted node that stays hidden behind its persisted descendant
     ([None], [(0, False)], [(0, [[1, 2], [3]], [(MAP, 0), (PERSIST, 0), (MAP, 1), (PERSIST, 0)])],
      [(0, 0, 4, 0, 0), (1, 0, 2), (0, 0, 4, 0, 0), (0, 0, 2, 0, 0), (0, 0, 4, 2, 3)]),
+    # a partition function that takes a header and then "the rest", directly on a persisted dataset, served from the cache
+    ([None], [(0, False)], [(0, [[1, 2, 3, 4], [5, 6, 7, 8]], [(MAP, 0), (PERSIST, 0), (PART, 0)])],
+     [(0, 0, 3, 0, 0), (0, 0, 3, 0, 0), (0, 0, 3, 3, 0)]),
+    ([None], [(0, True)], [(0, [[1, 2, 3], [4]], [(PERSIST, 0), (PART, 4), (PERSIST, 1), (PART, 5)])],
+     [(0, 0, 2, 2, 1), (0, 0, 4, 0, 0), (0, 0, 4, 0, 0), (0, 0, 2, 0, 0)]),
     # timed manager through a pool: joined entries expire (the repaired defect)
     ([3], [(0, True)], [(0, [[1], [2]], [(MAP, 0), (PERSIST, 0)])],
      [(0, 0, 2, 0, 0), (2, 4), (3, 0), (0, 0, 2, 0, 0)]),
@@ -555,6 +611,12 @@ def generate(rng, tier):
 
 
 def extra_checks(rng, tier, workdir):
+    yield from _source_iterator_check()
+    yield from _fault_checks(rng, tier)
+    yield from _threadpool_checks(rng, tier)
+
+
+def _threadpool_checks(rng, tier):
     """A real thread pool (concurrent.futures.ThreadPoolExecutor): results, total call counts and expiry of
     the entries joined from the workers.  Call counts only -- the order of calls is schedule dependent."""
     from concurrent.futures import ThreadPoolExecutor
@@ -600,6 +662,111 @@ def extra_checks(rng, tier, workdir):
                 yield ('unpersist:entry-left-behind', 'after a pool job', f'{list(m.cache_obj)}', case)
             if ret.collect() != want:
                 yield ('unpersist:contents-differ', 'after a pool job', '', case)
+
+
+class _Flaky:
+    """A user function with a transient fault: raises once, the first time it is called with `bad`."""
+
+    def __init__(self, f, bad):
+        self.f, self.bad, self.failed = f, bad, False
+
+    def __call__(self, x):
+        if x == self.bad and not self.failed:
+            self.failed = True
+            raise IOError('transient')
+        return self.f(x)
+
+
+def _fault_checks(rng, tier):
+    """Transient faults + the default retries (max_retries=3): a task attempt that fails half-way through a
+    partition is retried; with persist marks downstream of the faulty stage every action must still return what
+    the fault-free cache-free evaluation returns (a failed attempt must not leave anything in the cache).
+    Not in the Coq model (attempts are not modelled): oracle only."""
+    _install()
+    for _ in range(150 if tier == 'quick' else 2500):
+        CLOCK.t = 0
+        parts = [[rng.randint(-3, 6) for _ in range(rng.choice([1, 2, 3, 4]))] for _ in range(rng.choice([1, 2, 3]))]
+        stages = [_rand_stage(rng) for _ in range(rng.choice([1, 2, 3, 4]))]
+        stages = [(MAP, fn) if tag == PART else (tag, fn) for tag, fn in stages]
+        q = rng.randrange(len(stages))
+        stages[q] = (MAP, stages[q][1])                       # the faulty stage
+        # persist marks: at least one downstream of the faulty stage
+        marks = [rng.random() < 0.35 for _ in range(len(stages) + 1)]
+        down = rng.randint(q + 1, len(stages))
+        marks[down] = True
+        sts = []
+        for pos in range(len(stages) + 1):
+            if pos > 0:
+                sts.append(stages[pos - 1] + (pos - 1 == q,))
+            if marks[pos]:
+                sts.append((PERSIST, 0, False))
+        qn = next(n for n, st in enumerate(sts) if st[2])      # index of the faulty stage in sts
+        first_persist_after = next(n for n in range(qn + 1, len(sts)) if sts[n][0] == PERSIST) + 1   # node number
+        inputs = [x for p in parts for x in _plain([st[:2] for st in sts[:qn]], p)]
+        if not inputs:
+            continue
+        bad = rng.choice(inputs)
+        tmo = rng.choice([None, None, 5])
+        pool = rng.random() < 0.3
+        m = CacheManager() if tmo is None else TimedCacheManager(timeout=tmo)
+        sc = Context(cache_manager=m, pool=SubmitAllPool() if pool else None)
+        node = sc._parallelize_partitions([list(p) for p in parts])   # pylint: disable=protected-access
+        chain = [node]
+        for tag, fn, faulty in sts:
+            if tag == MAP:
+                node = node.map(_Flaky(LIB_MAP[fn], bad) if faulty else LIB_MAP[fn])
+            elif tag == FILTER:
+                node = node.filter(LIB_FILTER[fn])
+            elif tag == FLAT:
+                node = node.flatMap(LIB_FLAT[fn])
+            else:
+                node = node.persist()
+            chain.append(node)
+        history = []
+        for _ in range(rng.randint(1, 5)):
+            kd = rng.choice([0, 0, 1, 2, 3])
+            j = rng.randint(first_persist_after, len(sts)) if kd in (2, 3) or rng.random() < 0.7 else rng.randint(0, len(sts))
+            history.append((j, kd, rng.choice([1, 2, 3, 5])))
+        case = ('transient-fault', tmo, pool, parts, [st[:2] for st in sts], qn + 1, bad, history)
+        for j, kd, n in history:
+            flat = [x for p in parts for x in _plain([st[:2] for st in sts[:j]], p)]
+            want = flat if kd == 0 else len(flat) if kd == 1 else flat[:n] if kd == 2 else (flat[0] if flat else 'StopIteration')
+            try:
+                nd = chain[j]
+                got = (nd.collect() if kd == 0 else nd.count() if kd == 1 else nd.take(n) if kd == 2 else nd.first())
+            except StopIteration:
+                got = 'StopIteration'
+            except Exception as e:  # pylint: disable=broad-except
+                got = f'raised {type(e).__name__}'
+            if got != want:
+                yield ('fault-retry:result-differs-from-uncached',
+                       'a task attempt failed once (transient fault, retried); with persist the action returns something else',
+                       f'action {["collect", "count", "take", "first"][kd]}({n if kd == 2 else ""}) on node {j}: got {got!r}, '
+                       f'fault-free uncached result {want!r}', case)
+                break
+
+
+def _source_iterator_check():
+    """persist() directly after a parallelized source, in front of a partition function that consumes its
+    iterator in two steps: RDD.compute hands the partition LIST to the function, PersistedRDD.compute an iterator."""
+    for k, pf in enumerate(LIB_PART):
+        for parts in ([[1, 2, 3, 4], [5, 6, 7]], [[2], [3, 4]]):
+            outs = []
+            for persist in (False, True):
+                sc = Context()
+                node = sc._parallelize_partitions([list(p) for p in parts])   # pylint: disable=protected-access
+                if persist:
+                    node = node.persist()
+                try:
+                    outs.append(node.mapPartitions(pf).collect())
+                except Exception as e:  # pylint: disable=broad-except
+                    outs.append(f'raised {type(e).__name__}')
+            if outs[0] != outs[1]:
+                yield ('RDD.compute:partition-function-directly-on-source-sees-list-not-iterator',
+                       'persist() inserted between a parallelized source and mapPartitions changes the result',
+                       f'partition function {pf.__name__} on {parts}: without persist {outs[0]!r}, with persist {outs[1]!r}',
+                       ('source-iterator', k, parts))
+                return
 
 
 def shrink_candidates(case):
